@@ -4,9 +4,14 @@ import (
 	"archive/tar"
 	"bytes"
 	"compress/gzip"
+	"context"
+	"crypto/sha256"
+	"encoding/hex"
+	"encoding/json"
 	"fmt"
 	"io"
 	"os"
+	"os/exec"
 	"path/filepath"
 	"sort"
 	"strings"
@@ -27,6 +32,68 @@ type PNode struct {
 	Perm  uint32 `json:"perm"`
 	Mtime int64  `json:"mtime_ns"`
 	Data  string `json:"data"`
+	// FillKind / FillBytes: the content of the file is generated (see nodeData): Data with generated
+	// filler of FillBytes bytes put in place of "@FILL@" (in front of Data if it has no such mark).
+	// Keeps megabyte rule files out of reports and replay files.
+	FillKind  string `json:"fill_kind,omitempty"`
+	FillBytes int    `json:"fill_bytes,omitempty"`
+}
+
+// nodeData is the content written for a file node.
+func nodeData(n PNode) string {
+	if n.FillKind == "" {
+		return n.Data
+	}
+	return expandFill(n.FillKind, n.FillBytes, n.Data)
+}
+
+var fillCache sync.Map // "kind|bytes" -> filler
+
+// expandFill: "rule-lines" = at least n bytes of short valid rule-file lines (comments, blank and
+// whitespace-only lines and, every 64 KiB, a rule "zzfill-<k>.tmp" that no generated tree matches),
+// ending in a newline; "long-line" = one comment line of n bytes ('#' and n-1 letters), no newline.
+func expandFill(kind string, n int, text string) string {
+	if n < 0 {
+		n = 0
+	}
+	if n > 4<<20 {
+		n = 4 << 20
+	}
+	key := fmt.Sprintf("%s|%d", kind, n)
+	var filler string
+	if v, ok := fillCache.Load(key); ok {
+		filler = v.(string)
+	} else {
+		var b strings.Builder
+		switch kind {
+		case "long-line":
+			if n > 0 {
+				b.WriteByte('#')
+				b.WriteString(strings.Repeat("c", n-1))
+			}
+		default: // "rule-lines"
+			nextRule := 0
+			for k := 0; b.Len() < n; k++ {
+				switch {
+				case b.Len() >= nextRule:
+					fmt.Fprintf(&b, "zzfill-%06d.tmp\n", k)
+					nextRule += 64 << 10
+				case k%7 == 3:
+					b.WriteString("\n")
+				case k%7 == 5:
+					b.WriteString("  \t \n")
+				default:
+					fmt.Fprintf(&b, "# filler line %06d of a long hand-maintained list of exclusions ------------------------------\n", k)
+				}
+			}
+		}
+		filler = b.String()
+		fillCache.Store(key, filler)
+	}
+	if strings.Contains(text, "@FILL@") {
+		return strings.Replace(text, "@FILL@", filler, 1)
+	}
+	return filler + text
 }
 
 type PCase struct {
@@ -45,6 +112,11 @@ type PCase struct {
 
 var fracs = []int64{0, 400000000, 500000000, 600000000}
 
+// modification times at the edges of what a tar header holds (seed C02-f: the epoch taken for "not
+// recorded"): the epoch itself, 0.4 s (rounds to it), 0.5 s (rounds to 1 s), 1 s, the largest second
+// of the 11-digit octal field, the first one beyond it (a PAX record or base-256), and the year 2255
+var edgeMtimes = []int64{0, 400000000, 500000000, 1000000000, 1400000000, 8589934591e9, 8589934591e9 + 600000000, 8589934592e9, 9000000000e9 + 400000000}
+
 func materialiseP(arena string, nodes []PNode) error {
 	if err := os.MkdirAll(arena, 0755); err != nil {
 		return err
@@ -58,7 +130,7 @@ func materialiseP(arena string, nodes []PNode) error {
 			}
 		case "f":
 			os.MkdirAll(filepath.Dir(p), 0755)
-			if err := os.WriteFile(p, []byte(n.Data), 0644); err != nil {
+			if err := os.WriteFile(p, []byte(nodeData(n)), 0644); err != nil {
 				return err
 			}
 		case "l":
@@ -278,6 +350,9 @@ func genTree(r *Rng) []PNode {
 		}
 		used[p] = true
 		mt := 1400000000e9 + int64(i)*1000e9 + fracs[r.Intn(4)]
+		if r.Chance(12) {
+			mt = edgeMtimes[r.Intn(len(edgeMtimes))]
+		}
 		depth := strings.Count(p, "/") - 2 // directory depth of the node inside src
 		switch x := r.Intn(100); {
 		case x < 40:
@@ -378,7 +453,41 @@ func badPatternCase(bad string, deref bool) *PCase {
 	}}
 }
 
+// a rule file of a bit more than 1 MiB of short valid lines with the exclusions that matter at its end
+// (seed C10-f: the rule file read through a 1 MiB LimitReader, later rules silently dropped), and a rule
+// file with one comment line beyond bufio.Scanner's 64 KiB token limit between two exclusions. Oracle
+// only: the Lean driver's string functions recurse per character.
+func bigRuleFileCase(fillKind string, fillBytes int, deref bool) *PCase {
+	return &PCase{Src: "@ARENA@/p/src", Deref: deref, Ignore: true, NoModel: true, Nodes: []PNode{
+		{Path: "p", Kind: "d", Perm: 0755, Mtime: 1300000000e9},
+		{Path: "p/src", Kind: "d", Perm: 0755, Mtime: 1300000001e9},
+		{Path: "p/src/main.tf", Kind: "f", Perm: 0644, Mtime: 1300000010e9, Data: "m"},
+		{Path: "p/src/old.bak", Kind: "f", Perm: 0644, Mtime: 1300000010e9, Data: "b"},
+		{Path: "p/src/secret.auto.tfvars", Kind: "f", Perm: 0600, Mtime: 1300000010e9, Data: "password"},
+		{Path: "p/src/private", Kind: "d", Perm: 0700, Mtime: 1300000010e9},
+		{Path: "p/src/private/key.pem", Kind: "f", Perm: 0600, Mtime: 1300000010e9, Data: "key"},
+		{Path: "p/src/modules", Kind: "d", Perm: 0755, Mtime: 1300000010e9},
+		{Path: "p/src/modules/child.tf", Kind: "f", Perm: 0644, Mtime: 1300000010e9, Data: "c"},
+		{Path: "p/src/.terraformignore", Kind: "f", Perm: 0644, Mtime: 1400000000e9, FillKind: fillKind, FillBytes: fillBytes,
+			Data: "*.bak\n@FILL@\nsecret.auto.tfvars\nprivate/\n"},
+	}}
+}
+
+// hasLongRuleLine: the case's rule file has a generated line beyond bufio.Scanner's default token limit.
+// Before the repair F46 such a file was refused as a whole (ParseIgnoreFileContent: "token too long") and
+// Pack applied the built-in rules only, shipping what the user's rules exclude. The oracle demands the
+// complete rule file being honoured.
+func hasLongRuleLine(c *PCase) bool {
+	for _, n := range c.Nodes {
+		if n.Path == "p/src/.terraformignore" && n.FillKind == "long-line" && n.FillBytes >= 64<<10 {
+			return true
+		}
+	}
+	return false
+}
+
 var packCorpus = []*PCase{
+	bigRuleFileCase("rule-lines", 1<<20+4096, false), bigRuleFileCase("rule-lines", 1<<20+4096, true), bigRuleFileCase("long-line", 70<<10, false),
 	badPatternCase("logs/[0-9.log", false), badPatternCase("[z-a]", false), badPatternCase("[", true),symlinkedComponentCase("BB", true), symlinkedComponentCase("B", true), symlinkedComponentCase("BB", false),
 	oddSourceCase("@ARENA@/p/missing"), oddSourceCase("@ARENA@/p/plain"), oddSourceCase("@ARENA@/p/dangling"), oddSourceCase("@ARENA@/p/pipe"), oddSourceCase("@ARENA@/p/plain/"),
 	derefRuleCase("l/inner\n"), derefRuleCase("inner\n"), derefRuleCase("l/sub/\n"), derefRuleCase("/l/*\n!/l/other\n"), derefRuleCase("l/\n!l/sub/deep\n"),
@@ -401,7 +510,7 @@ func packRuleFile(c *PCase) string {
 		n, ok = byPath["p/src/"+n.Data]
 	}
 	if ok && n.Kind == "f" {
-		return n.Data
+		return nodeData(n)
 	}
 	return ""
 }
@@ -501,7 +610,10 @@ func runPackLane(cfg *Config, rep *Report, gen func(r *Rng, i int) []*PCase) {
 			for _, a := range c.Allow {
 				allow = append(allow, sub(a))
 			}
-			fsdump := snapshotNS(arena)
+			fsdump := ""
+			if !c.NoModel {
+				fsdump = snapshotNS(arena)
+			}
 			var buf bytes.Buffer
 			out := runPack(src, &buf, &buf, c.Deref, c.Ignore, allow)
 			reqs[i] = fmt.Sprintf("pack %s %s %s %s %s %s", X("/"), X(src), B01(c.Deref), B01(c.Ignore), encStrList(allow), fsdump)
@@ -631,6 +743,46 @@ func judgePack(rep *Report, c *PCase, arena, src string, allow []string, out pac
 		}
 		return
 	}
+	// the rule file the oracles judge by
+	ruleText := packRuleFile(c)
+	if c.Ignore && hasLongRuleLine(c) {
+		// refused as a whole (built-in rules only) or honoured as a whole: whichever explains the slug
+		// without a mismatch; if neither does, the failures are reported against the refusal (what the
+		// unchanged code does)
+		shipped := map[string]bool{}
+		for _, e := range out.entries {
+			shipped[strings.TrimSuffix(e.Name, "/")] = true
+		}
+		mismatches := func(text string) int {
+			orules := oParse(text)
+			k := 0
+			filepath.Walk(srcReal, func(p string, info os.FileInfo, err error) error {
+				if err != nil {
+					return nil
+				}
+				rel, _ := filepath.Rel(srcReal, p)
+				if rel == "." || info.IsDir() {
+					return nil
+				}
+				if oExcluded(orules, rel) == shipped[rel] {
+					k++
+				}
+				return nil
+			})
+			return k
+		}
+		if mismatches(ruleText) != 0 && mismatches("") == 0 {
+			// F46 (repaired): the whole rule file dropped, the built-in rules alone applied
+			rep.Count("long-rule-line:refused-defaults-apply")
+			fail("C03", "a rule file with a line of 64 KiB or more was dropped as a whole: only the built-in rules were applied and files excluded by the user's rules are in the slug", "")
+			ruleText = ""
+		} else if mismatches(ruleText) == 0 {
+			rep.Count("long-rule-line:honoured")
+		} else {
+			ruleText = ""
+			rep.Count("long-rule-line:partial")
+		}
+	}
 	// ---- C20 ----
 	var names []string
 	var bodySum, hdrSum int64
@@ -730,7 +882,7 @@ func judgePack(rep *Report, c *PCase, arena, src string, allow []string, out pac
 		// are entries excluded by ignore rules" (seed C02-d)
 		var keepOnly func(rel string, isDir bool) bool
 		if c.Ignore {
-			rulefile := packRuleFile(c)
+			rulefile := ruleText
 			orules := oParse(rulefile)
 			keepOnly = func(rel string, isDir bool) bool {
 				return !isDir && !oExcluded(orules, rel) && packPruneSignature(orules, rel) == ""
@@ -807,7 +959,7 @@ func judgePack(rep *Report, c *PCase, arena, src string, allow []string, out pac
 	})
 	// ---- C03 (secrecy, also with dereferencing): no entry whose own archive path is excluded ----
 	if c.Ignore && c.Deref && len(allow) == 0 {
-		rulefile := packRuleFile(c)
+		rulefile := ruleText
 		orules := oParse(rulefile)
 		for _, e := range out.entries {
 			name := strings.TrimSuffix(e.Name, "/")
@@ -818,7 +970,7 @@ func judgePack(rep *Report, c *PCase, arena, src string, allow []string, out pac
 	}
 	// ---- C03: with ignore processing, a file ships iff its own path is not excluded ----
 	if !c.Deref && len(allow) == 0 {
-		rulefile := packRuleFile(c)
+		rulefile := ruleText
 		orules := oParse(rulefile)
 		shipped := map[string]bool{}
 		for _, e := range out.entries {
@@ -1016,7 +1168,7 @@ func (s *slowWriter) Write(p []byte) (int, error) {
 
 func init() {
 	lanes["pack-spelling"] = func(cfg *Config, rep *Report) {
-		rep.Rule = "one generated tree per case, packed through: the absolute path (baseline), relative spellings from two working directories ('p/src', './p/src/.', 'p/./src', 'src' from p), a trailing slash, a '..' detour, an absolute root link, a relative root link (from its own directory and from elsewhere), a chained root link, 'link/'; after parsing rule files that begin with a negation; and with four Pack calls running concurrently; non-trivial = every variant; distinct by (tree, variant)"
+		rep.Rule = "one generated tree per case, packed through: the absolute path (baseline), relative spellings from two working directories ('p/src', './p/src/.', 'p/./src', 'src' from p), a trailing slash, a '..' detour, an absolute root link, a relative root link (from its own directory and from elsewhere), a chained root link, 'link/'; after parsing rule files that begin with a negation; and with four Pack calls running concurrently; per tree one generated history (2-6 Pack / parse steps over 1-3 directories whose rule files share pattern texts with and without a later negation and are replaced in place, deleted, re-created) whose last Pack is repeated in a fresh process; for every fourth tree the package-level Pack held at its first write while another package-level Pack with the other dereference setting runs; non-trivial = every variant; distinct by (tree, variant)"
 		r := NewRng(cfg.Seed)
 		work, err := filepath.EvalSymlinks(cfg.Work)
 		if err != nil {
@@ -1033,10 +1185,16 @@ func init() {
 			{Path: "abslink", Kind: "l", Data: "@ARENA@/p/src"},
 			{Path: "p/rellink", Kind: "l", Data: "src"},
 			{Path: "chain2", Kind: "l", Data: "@ARENA@/abslink"}}
-		runOne := func(a int, c *PCase, isReplay bool) {
+		runOne := func(a int, c *PCase, isReplay bool, histories []*HCase) {
 			arena := filepath.Join(work, fmt.Sprintf("s%05d", a))
 			if err := materialiseP(arena, c.Nodes); err != nil {
 				return
+			}
+			var finishHistories []func()
+			for k, h := range histories {
+				finishHistories = append(finishHistories, startHistory(rep, filepath.Join(work, fmt.Sprintf("y%05d_%d", a, k)), h))
+				rep.Case(fmt.Sprintf("%d|history-%d", a, k), true, map[string]interface{}{"variant": "history-vs-fresh-process", "steps": len(h.Steps), "dirs": h.Dirs})
+				rep.Count("variant:history-vs-fresh-process")
 			}
 			fsdump := snapshotNS(arena)
 			abs := arena + "/p/src"
@@ -1263,6 +1421,19 @@ func init() {
 				}
 				os.RemoveAll(sdir)
 			}
+			// history (d): generated histories of Pack calls over 1-3 directories whose rule files share
+			// pattern texts, are replaced in place, deleted and re-created; the last Pack against the same
+			// Pack in a fresh process (seeds C03-f, C16-f: state kept at package level)
+			// (run before the spellings, judged here: the fresh process runs meanwhile)
+			for _, fin := range finishHistories {
+				fin()
+			}
+			// overlapping calls of the package-level Pack with different dereference arguments (seed C05-f)
+			if a%4 == 0 || isReplay {
+				runOverlappingLegacyPack(rep, filepath.Join(work, fmt.Sprintf("o%05d", a)), map[string]interface{}{"case": c})
+				rep.Case(fmt.Sprintf("%d|overlapping-legacy-pack", a), true, map[string]interface{}{"variant": "overlapping-legacy-pack"})
+				rep.Count("variant:overlapping-legacy-pack")
+			}
 			// concurrent Pack calls of the same tree
 			var wg sync.WaitGroup
 			results := make([]string, 4)
@@ -1296,8 +1467,20 @@ func init() {
 			var wrapped struct {
 				Case *PCase `json:"case"`
 			}
+			var hw struct {
+				History *HCase `json:"history"`
+			}
 			var rc *PCase
-			if loadReplayInput(cfg, "pack-spelling", &wrapped) && wrapped.Case != nil {
+			if loadReplayInput(cfg, "pack-spelling", &hw) && hw.History != nil {
+				// a recorded history: run alone, first (its pattern texts have not been met in this process)
+				if why := unsafeHCase(hw.History); why != "" {
+					rep.ReplayNote("refused: " + why)
+				} else {
+					rep.BeginReplay()
+					runHistory(rep, filepath.Join(work, fmt.Sprintf("y%05d_r", cfg.N)), hw.History)
+					rep.EndReplay()
+				}
+			} else if loadReplayInput(cfg, "pack-spelling", &wrapped) && wrapped.Case != nil {
 				rc = wrapped.Case
 			} else {
 				var plain PCase
@@ -1305,7 +1488,9 @@ func init() {
 					rc = &plain
 				}
 			}
-			if rc == nil {
+			if hw.History != nil {
+				// done above
+			} else if rc == nil {
 				replayMissing(cfg, rep, "pack-spelling")
 			} else if why := unsafeReplayedPCase(rc); why != "" {
 				rep.ReplayNote("refused: " + why)
@@ -1322,7 +1507,7 @@ func init() {
 				}
 				s0 := len(reqs)
 				rep.BeginReplay()
-				runOne(cfg.N, rc, true)
+				runOne(cfg.N, rc, true, nil)
 				rep.EndReplay(reqs[s0:]...)
 			}
 		}
@@ -1330,8 +1515,520 @@ func init() {
 			c := genPCase(r)
 			c.Allow = nil
 			c.Nodes = append(c.Nodes, rootLinks...)
-			runOne(a, c, false)
+			hs := []*HCase{genHCase(r)}
+			runOne(a, c, false, hs)
 		}
 		rep.Compare(cfg.Driver, reqs, impl, human)
+	}
+}
+
+// ---------- pack-spelling: histories judged against a FRESH PROCESS (C16, C03) ----------
+//
+// The history steps above compare a reused Packer with a fresh Packer of the same process; state kept
+// at package level (seeds C03-f: parsed rules remembered per source path; C16-f: compiled rules
+// remembered per pattern text together with the negationsAfter flag of the rule file that compiled
+// them first) poisons both sides of such a comparison. Here the last Pack of a generated history is
+// repeated by a child process (the vh binary, lane "pack-child") on the directory as it is on disk,
+// and the two entry listings must be equal.
+
+type HStep struct {
+	Dir int `json:"dir"` // which of the directories h0, h1, h2
+	// rule file of that directory before the call: Rules != nil: written (created or replaced in
+	// place); Delete: removed; neither: left as it is
+	Rules  *string `json:"rules"`
+	Delete bool    `json:"delete,omitempty"`
+	// packer: NewPacker(ApplyTerraformIgnore) | legacy: slug.Pack | plain: NewPacker() (no ignore
+	// processing) | parse: no Pack, the rule text is parsed and matched against the tree's paths
+	Mode  string `json:"mode"`
+	Deref bool   `json:"deref,omitempty"`
+}
+
+type HCase struct {
+	Tree  []PNode `json:"tree"` // materialised in each directory (paths relative to it)
+	Dirs  int     `json:"dirs"`
+	Steps []HStep `json:"steps"` // the last one is a Pack; it is what the fresh process repeats
+}
+
+// what the child process is given: the directory is already on disk
+type packChildReq struct {
+	Src   string `json:"src"`
+	Mode  string `json:"mode"`
+	Deref bool   `json:"deref"`
+}
+
+// packListing: class, then one line per entry: name, type, mode, size, link target, content hash
+func packListing(src, mode string, deref bool) string {
+	var buf bytes.Buffer
+	var err error
+	switch mode {
+	case "legacy":
+		_, err = slug.Pack(src, &buf, deref)
+	default:
+		var opts []slug.PackerOption
+		if deref {
+			opts = append(opts, slug.DereferenceSymlinks())
+		}
+		if mode != "plain" {
+			opts = append(opts, slug.ApplyTerraformIgnore())
+		}
+		var p *slug.Packer
+		p, err = slug.NewPacker(opts...)
+		if err == nil {
+			_, err = p.Pack(src, &buf)
+		}
+	}
+	cls := classify(err)
+	if cls != "ok" {
+		return cls
+	}
+	ents, sizes, derr := decodeSlug(buf.Bytes())
+	lines := []string{cls}
+	if derr != nil {
+		lines[0] = "ok-but-unreadable"
+	}
+	for k, e := range ents {
+		h := sha256.Sum256([]byte(e.Body))
+		lines = append(lines, fmt.Sprintf("%q type=%c mode=%o size=%d link=%q sha256=%s", e.Name, e.Typ, e.Mode, sizes[k], e.Link, hex.EncodeToString(h[:8])))
+	}
+	return strings.Join(lines, "\n")
+}
+
+func listingNames(l string) string {
+	var names []string
+	for _, line := range strings.Split(l, "\n")[1:] {
+		if i := strings.Index(line, " type="); i > 0 {
+			names = append(names, line[:i])
+		}
+	}
+	sort.Strings(names)
+	return strings.Join(names, ",")
+}
+
+func init() {
+	lanes["pack-child"] = func(cfg *Config, rep *Report) {
+		var q packChildReq
+		b, err := os.ReadFile(cfg.Replay)
+		if err != nil || json.Unmarshal(b, &q) != nil || q.Src == "" {
+			os.Exit(3)
+		}
+		syscall.Umask(022)
+		os.Stdout.WriteString(packListing(q.Src, q.Mode, q.Deref))
+		os.Exit(0)
+	}
+}
+
+// packInFreshProcess repeats a Pack call in a child process and returns its listing.
+func packInFreshProcess(scratch string, q packChildReq) (string, error) {
+	self, err := os.Executable()
+	if err != nil {
+		return "", err
+	}
+	b, _ := json.Marshal(q)
+	cf := filepath.Join(scratch, "child-case.json")
+	if err := os.WriteFile(cf, b, 0644); err != nil {
+		return "", err
+	}
+	defer os.Remove(cf)
+	ctx, cancel := context.WithTimeout(context.Background(), 30*time.Second)
+	defer cancel()
+	cmd := exec.CommandContext(ctx, self, "-lane", "pack-child", "-replay", cf, "-work", scratch)
+	var stdout, stderr bytes.Buffer
+	cmd.Stdout = &stdout
+	cmd.Stderr = &stderr
+	if err := cmd.Run(); err != nil {
+		return "", fmt.Errorf("pack-child: %v: %s", err, strings.TrimSpace(stderr.String()))
+	}
+	return stdout.String(), nil
+}
+
+func genHCase(r *Rng) *HCase {
+	// names and pattern texts of their own for every history: a process-wide cache keyed by pattern
+	// text is "first writer wins", so pattern texts met earlier in this process would hide it
+	tok := fmt.Sprintf("%05x", r.Next()&0xfffff)
+	D, L := "zz"+tok, "l"+tok
+	h := &HCase{Dirs: []int{1, 1, 2, 2, 2, 3}[r.Intn(6)], Tree: []PNode{
+		{Path: "main.tf", Kind: "f", Perm: 0644, Data: "m"},
+		{Path: D, Kind: "d", Perm: 0755},
+		{Path: D + "/keep.txt", Kind: "f", Perm: 0644, Data: "keep"},
+		{Path: D + "/other.txt", Kind: "f", Perm: 0600, Data: "other"},
+		{Path: D + "/deep", Kind: "d", Perm: 0750},
+		{Path: D + "/deep/x.txt", Kind: "f", Perm: 0644, Data: "x"},
+		{Path: "debug." + L, Kind: "f", Perm: 0644, Data: "log"},
+		{Path: "mod", Kind: "d", Perm: 0755},
+		{Path: "mod/net.tf", Kind: "f", Perm: 0755, Data: "net"},
+		{Path: "creds", Kind: "d", Perm: 0700},
+		{Path: "creds/prod.pem", Kind: "f", Perm: 0600, Data: "pem"},
+		{Path: "creds/readme.md", Kind: "f", Perm: 0644, Data: "readme"},
+	}}
+	if r.Chance(40) {
+		h.Tree = append(h.Tree, PNode{Path: D + "/up", Kind: "l", Data: "../mod/net.tf"})
+	}
+	if r.Chance(12) {
+		h.Tree = append(h.Tree, PNode{Path: "zout", Kind: "l", Data: "../hext/file"}) // out of the tree (decoy inside the arena)
+	}
+	// rule files that share pattern texts with and without a later negation
+	bases := []string{D + "/\n", "*." + L + "\n" + D + "/\n", "creds/\n", D + "/\ncreds/\n", "*." + L + "\n", "creds/*.pem\n", "mod/\n" + D + "/deep/\n"}
+	tails := []string{"!" + D + "/keep.txt\n", "!" + D + "/deep/x.txt\n*." + L + "\n", "!creds/readme.md\n", "!mod/net.tf\n", "!" + D + "/deep/\n"}
+	pool := func() string {
+		s := r.Pick(bases)
+		if r.Chance(45) {
+			s += r.Pick(tails)
+		}
+		if r.Chance(8) {
+			s = r.Pick([]string{"", "# nothing\n", "\n"})
+		}
+		return s
+	}
+	packMode := func(last bool) string {
+		switch x := r.Intn(100); {
+		case x < 55:
+			return "packer"
+		case x < 80:
+			return "legacy"
+		case x < 90 || last:
+			return "plain"
+		default:
+			return "parse"
+		}
+	}
+	str := func(s string) *string { return &s }
+	switch shape := r.Intn(100); {
+	case shape < 40:
+		// the same pattern lines first without, later with a negation after them (or the other way
+		// round), in the same or in another directory
+		bi := r.Intn(4)
+		base := bases[bi]
+		// a negation that brings back something below a directory the base excludes
+		tail := r.Pick([]string{tails[0], tails[1], tails[4]})
+		if bi == 2 || (bi == 3 && r.Bool()) {
+			tail = tails[2]
+		}
+		with := base + tail
+		first, second := base, with
+		if r.Chance(25) {
+			first, second = with, base
+		}
+		d0 := r.Intn(h.Dirs)
+		h.Steps = append(h.Steps, HStep{Dir: d0, Rules: str(first), Mode: r.Pick([]string{"packer", "packer", "legacy", "parse"}), Deref: r.Chance(20)})
+		if r.Chance(40) {
+			h.Steps = append(h.Steps, HStep{Dir: r.Intn(h.Dirs), Rules: str(pool()), Mode: packMode(false)})
+		}
+		h.Steps = append(h.Steps, HStep{Dir: r.Intn(h.Dirs), Rules: str(second), Mode: r.Pick([]string{"packer", "packer", "legacy"}), Deref: r.Chance(20)})
+	case shape < 75:
+		// one directory packed, its rule file replaced in place / deleted / deleted and re-created,
+		// packed again by the same path
+		d0 := r.Intn(h.Dirs)
+		h.Steps = append(h.Steps, HStep{Dir: d0, Rules: str(pool()), Mode: r.Pick([]string{"packer", "legacy"}), Deref: r.Chance(20)})
+		if r.Chance(40) {
+			h.Steps = append(h.Steps, HStep{Dir: r.Intn(h.Dirs), Rules: str(pool()), Mode: packMode(false)})
+		}
+		last := HStep{Dir: d0, Mode: r.Pick([]string{"packer", "packer", "legacy"}), Deref: r.Chance(20)}
+		switch x := r.Intn(100); {
+		case x < 55:
+			last.Rules = str(pool())
+		case x < 80:
+			last.Delete = true
+		default:
+			h.Steps = append(h.Steps, HStep{Dir: d0, Delete: true, Mode: packMode(false)})
+			last.Rules = str(pool())
+		}
+		h.Steps = append(h.Steps, last)
+	default:
+		n := 2 + r.Intn(4)
+		for i := 0; i < n; i++ {
+			st := HStep{Dir: r.Intn(h.Dirs), Mode: packMode(i == n-1), Deref: r.Chance(25)}
+			if st.Mode == "parse" && i == n-1 {
+				st.Mode = "packer"
+			}
+			switch x := r.Intn(100); {
+			case x < 70:
+				st.Rules = str(pool())
+			case x < 82:
+				st.Delete = true
+			}
+			h.Steps = append(h.Steps, st)
+		}
+	}
+	return h
+}
+
+// unsafeHCase: "" if the (replayed) history can be run inside a scratch arena.
+func unsafeHCase(h *HCase) string {
+	if h == nil || len(h.Tree) == 0 || len(h.Steps) == 0 || len(h.Steps) > 40 || h.Dirs < 1 || h.Dirs > 3 {
+		return "the recorded input is not a history case"
+	}
+	for _, st := range h.Steps {
+		if st.Dir < 0 || st.Dir >= h.Dirs {
+			return "history step names a directory that does not exist"
+		}
+		switch st.Mode {
+		case "packer", "legacy", "plain", "parse":
+		default:
+			return "history step with an unknown mode"
+		}
+	}
+	if m := h.Steps[len(h.Steps)-1].Mode; m == "parse" {
+		return "the last history step is not a Pack"
+	}
+	for _, n := range h.Tree {
+		if n.Path == ".terraformignore" || strings.ContainsAny(n.Data, "@") {
+			return "history tree with a rule file or a placeholder of its own"
+		}
+		if n.Kind == "l" && (strings.HasPrefix(n.Data, "/") || countDotDot(n.Data) > 1+strings.Count(n.Path, "/")) {
+			return "history tree link " + n.Path + " leaves the arena"
+		}
+	}
+	return unsafePNodes(h.Tree, nil)
+}
+
+// runHistory runs one history in this process and its last Pack again in a fresh process.
+func runHistory(rep *Report, arena string, h *HCase) {
+	startHistory(rep, arena, h)()
+}
+
+// startHistory runs the history in this process and starts the fresh process; the function it returns
+// waits for that process, compares and removes the arena (so that the child's run time overlaps with
+// whatever the caller does in between).
+func startHistory(rep *Report, arena string, h *HCase) (finish func()) {
+	started := false
+	defer func() {
+		if !started {
+			os.RemoveAll(arena)
+		}
+	}()
+	finish = func() {}
+	os.MkdirAll(filepath.Join(arena, "hext"), 0755)
+	os.WriteFile(filepath.Join(arena, "hext", "file"), []byte("outside"), 0600)
+	dirs := make([]string, h.Dirs)
+	usedDir := map[int]bool{}
+	for _, st := range h.Steps {
+		usedDir[st.Dir] = true
+	}
+	for d := range dirs {
+		dirs[d] = filepath.Join(arena, fmt.Sprintf("h%d", d))
+		if !usedDir[d] {
+			continue
+		}
+		// modes as given, times as they come: both sides of the comparison read the same disk state
+		os.MkdirAll(dirs[d], 0755)
+		for _, n := range h.Tree {
+			p := filepath.Join(dirs[d], n.Path)
+			var err error
+			switch n.Kind {
+			case "d":
+				err = os.MkdirAll(p, os.FileMode(n.Perm|0700))
+			case "f":
+				err = os.WriteFile(p, []byte(n.Data), os.FileMode(n.Perm))
+			case "l":
+				err = os.Symlink(n.Data, p)
+			}
+			if err != nil {
+				rep.Count("history:skipped-materialise")
+				return finish
+			}
+		}
+	}
+	var paths []string
+	for _, n := range h.Tree {
+		paths = append(paths, n.Path)
+		if n.Kind == "d" {
+			paths = append(paths, n.Path+"/")
+		}
+	}
+	in := map[string]interface{}{"history": h}
+	var last string
+	for _, st := range h.Steps {
+		rf := filepath.Join(dirs[st.Dir], ".terraformignore")
+		switch {
+		case st.Rules != nil:
+			os.WriteFile(rf, []byte(*st.Rules), 0644)
+		case st.Delete:
+			os.Remove(rf)
+		}
+		if st.Mode == "parse" {
+			b, _ := os.ReadFile(rf)
+			if rs, err, _ := parseSafe(string(b)); err == nil && rs != nil {
+				for _, p := range paths {
+					excludesSafe(rs, p)
+				}
+			}
+			continue
+		}
+		done := make(chan string, 1)
+		go func(src, mode string, deref bool) {
+			defer func() {
+				if x := recover(); x != nil {
+					done <- "panic"
+				}
+			}()
+			done <- packListing(src, mode, deref)
+		}(dirs[st.Dir], st.Mode, st.Deref)
+		select {
+		case last = <-done:
+		case <-time.After(20 * time.Second):
+			rep.AddOracle(OracleFailure{Property: "C19", Lane: "pack-spelling", What: "Pack did not return within 20 s in a history of Pack calls", Input: in})
+			return finish
+		}
+	}
+	fin := h.Steps[len(h.Steps)-1]
+	type childOut struct {
+		listing string
+		err     error
+	}
+	ch := make(chan childOut, 1)
+	go func() {
+		l, err := packInFreshProcess(arena, packChildReq{Src: dirs[fin.Dir], Mode: fin.Mode, Deref: fin.Deref})
+		ch <- childOut{l, err}
+	}()
+	started = true
+	return func() {
+		defer os.RemoveAll(arena)
+		co := <-ch
+		judgeHistory(rep, h, in, last, co.listing, co.err)
+	}
+}
+
+func judgeHistory(rep *Report, h *HCase, in map[string]interface{}, last, fresh string, err error) {
+	fin := h.Steps[len(h.Steps)-1]
+	if err != nil {
+		rep.mu.Lock()
+		rep.Broken = append(rep.Broken, "fresh-process Pack: "+err.Error())
+		rep.mu.Unlock()
+		return
+	}
+	rep.Count("history:fresh-process")
+	rep.Count("history-result:" + strings.SplitN(fresh, "\n", 2)[0])
+	if last == fresh {
+		return
+	}
+	rep.AddOracle(OracleFailure{Property: "C16", Lane: "pack-spelling", What: fmt.Sprintf("output depends on what earlier Pack or ignore-file parsing happened in the process: the last Pack of the history (directory h%d, %s) differs from the same Pack of the same directory in a fresh process: %s", fin.Dir, fin.Mode, firstDiffLine(last, fresh)), Input: in})
+	if fin.Mode != "plain" && listingNames(last) != listingNames(fresh) {
+		rep.AddOracle(OracleFailure{Property: "C03", Lane: "pack-spelling", What: fmt.Sprintf("what ships is not decided by the directory's rule file alone: after the history the slug of h%d holds [%s], in a fresh process [%s]", fin.Dir, listingNames(last), listingNames(fresh)), Input: in})
+	}
+}
+
+// ---------- pack-spelling: overlapping calls of the package-level Pack (C05, C16) ----------
+
+// gateWriter blocks on its first Write until released.
+type gateWriter struct {
+	buf     bytes.Buffer
+	once    sync.Once
+	entered chan struct{}
+	release chan struct{}
+}
+
+func (g *gateWriter) Write(b []byte) (int, error) {
+	g.once.Do(func() {
+		close(g.entered)
+		<-g.release
+	})
+	return g.buf.Write(b)
+}
+
+// runOverlappingLegacyPack: slug.Pack(A, w, derefA) is held at its first write (after it has started,
+// before its walk reaches A's out-of-tree link) while slug.Pack(B, _, !derefA) runs to completion.
+// Each call must behave as it does alone (seed C05-f: one package-level Packer behind slug.Pack whose
+// dereference flag every call overwrites).
+func runOverlappingLegacyPack(rep *Report, arena string, input map[string]interface{}) {
+	defer os.RemoveAll(arena)
+	const secret = "TOP-SECRET-OUTSIDE-CONTENT"
+	A, B := filepath.Join(arena, "projA"), filepath.Join(arena, "projB")
+	for _, d := range []string{A, B, filepath.Join(arena, "outside")} {
+		os.MkdirAll(d, 0755)
+	}
+	os.WriteFile(filepath.Join(arena, "outside", "secret.txt"), []byte(secret), 0600)
+	os.WriteFile(filepath.Join(A, "a_first.txt"), []byte("inside A"), 0644)
+	// incompressible, so that compressed data also reaches the writer before the walk meets the link
+	br := NewRng(0xC05F)
+	big := make([]byte, 64<<10)
+	for i := 0; i+8 <= len(big); i += 8 {
+		v := br.Next()
+		for k := 0; k < 8; k++ {
+			big[i+k] = byte(v >> (8 * k))
+		}
+	}
+	os.WriteFile(filepath.Join(A, "b_big.bin"), big, 0644)
+	os.Symlink("../outside/secret.txt", filepath.Join(A, "z_link"))
+	os.WriteFile(filepath.Join(B, "b.txt"), []byte("inside B"), 0644)
+	os.Symlink("b.txt", filepath.Join(B, "in_link"))
+	type res struct {
+		class string
+		canon string
+		leak  bool
+	}
+	finish := func(err error, raw []byte) res {
+		o := packOut{class: classify(err)}
+		ents, sizes, _ := decodeSlug(raw) // as far as it can be read
+		leak := false
+		for _, e := range ents {
+			if strings.Contains(e.Body, secret) {
+				leak = true
+			}
+		}
+		canon := o.class
+		if err == nil {
+			var ls []string
+			for k, e := range ents {
+				h := sha256.Sum256([]byte(e.Body))
+				ls = append(ls, fmt.Sprintf("%q type=%c mode=%o size=%d link=%q sha256=%s", e.Name, e.Typ, e.Mode, sizes[k], e.Link, hex.EncodeToString(h[:8])))
+			}
+			canon += "\n" + strings.Join(ls, "\n")
+		}
+		return res{o.class, canon, leak}
+	}
+	for _, derefA := range []bool{false, true} {
+		var sb bytes.Buffer
+		_, serr := slug.Pack(A, &sb, derefA)
+		alone := finish(serr, sb.Bytes())
+		gw := &gateWriter{entered: make(chan struct{}), release: make(chan struct{})}
+		done := make(chan error, 1)
+		go func() {
+			defer func() {
+				if x := recover(); x != nil {
+					done <- fmt.Errorf("panic: %v", x)
+				}
+			}()
+			_, err := slug.Pack(A, gw, derefA)
+			done <- err
+		}()
+		var oerr error
+		finished := false
+		select {
+		case <-gw.entered:
+		case oerr = <-done:
+			finished = true // nothing was written before it returned: no overlap to speak of
+		case <-time.After(10 * time.Second):
+			close(gw.release)
+			rep.AddOracle(OracleFailure{Property: "C19", Lane: "pack-spelling", What: "slug.Pack wrote nothing and did not return within 10 s", Input: input})
+			return
+		}
+		if !finished {
+			slug.Pack(B, io.Discard, !derefA)
+			close(gw.release)
+			select {
+			case oerr = <-done:
+			case <-time.After(20 * time.Second):
+				rep.AddOracle(OracleFailure{Property: "C19", Lane: "pack-spelling", What: "slug.Pack did not return within 20 s after its writer was released", Input: input})
+				return
+			}
+		} else {
+			rep.Count("overlap:not-entered")
+		}
+		got := finish(oerr, gw.buf.Bytes())
+		rep.Count(fmt.Sprintf("overlap:deref=%v:%s", derefA, got.class))
+		in := map[string]interface{}{"step": "overlapping-legacy-pack", "blocked_call": map[string]interface{}{"src": "projA (a_first.txt, b_big.bin, z_link -> ../outside/secret.txt)", "dereference": derefA},
+			"other_call": map[string]interface{}{"src": "projB (b.txt, in_link -> b.txt)", "dereference": !derefA}}
+		for k, v := range input {
+			in[k] = v
+		}
+		if got.canon != alone.canon {
+			rep.AddOracle(OracleFailure{Property: "C16", Lane: "pack-spelling", What: fmt.Sprintf("result depends on other Pack calls running at the same time: slug.Pack(projA, w, dereference=%v) gives %q alone and %q when slug.Pack(projB, _, dereference=%v) runs while it is under way: %s", derefA, alone.class, got.class, !derefA, firstDiffLine(alone.canon, got.canon)), Input: in})
+		}
+		if !derefA && (got.class != "illegal" || got.leak) {
+			rep.AddOracle(OracleFailure{Property: "C05", Lane: "pack-spelling", What: fmt.Sprintf("out-of-tree link content leaked / no illegal-slug error without dereferencing: slug.Pack(projA, w, false) overlapped by slug.Pack(projB, _, true) returned %q (outside file's content in the output: %v)", got.class, got.leak), Input: in})
+		}
+		if !derefA && alone.leak {
+			rep.AddOracle(OracleFailure{Property: "C05", Lane: "pack-spelling", What: "slug.Pack(projA, w, false) wrote the content of the out-of-tree file", Input: in})
+		}
 	}
 }
